@@ -74,6 +74,9 @@ type Interp struct {
 	okSeen   int
 	nForks   int
 	second   string // second solver binary for verdict queries ("" = none)
+	forkSites map[string]int
+	collected [][]*State
+	nMerged  int
 	stepCap  int
 	opts     map[string]bool
 }
@@ -290,9 +293,26 @@ func evalTerm(t *Term, m map[string]*big.Int) *big.Int {
 
 // ---------- exploration ----------
 
-func (in *Interp) Explore(st *State) {
+// Explore runs st depth-first. When stop > 0 the exploration of a path ends as
+// soon as its stack is no deeper than stop (the callee being summarised has
+// returned) and the state is handed to the innermost collector.
+//
+// State merging at function returns: at a genuine fork the outermost frame
+// pushed since the previous fork is taken as the unit to summarise. Its
+// sub-paths are explored to their return; those that were pure (no write to
+// memory older than the frame, no draws/locks/observations) and return values
+// of the same shape are merged back into ONE state whose return value is an
+// ite over the sub-path conditions. Byte-compare loops in library code
+// (net.IP.To4, IPNet.Contains, bytes.Equal ...) then cost one path, not one
+// per byte. Impure or differently shaped sub-paths simply continue on their own.
+func (in *Interp) Explore(st *State, stop int) {
 	for {
-		fr, end := in.runUntilFork(st)
+		fr, end, stopped := in.runUntilFork(st, stop)
+		if stopped {
+			n := len(in.collected) - 1
+			in.collected[n] = append(in.collected[n], st)
+			return
+		}
 		if end != nil {
 			in.record(st, end)
 			return
@@ -327,42 +347,256 @@ func (in *Interp) Explore(st *State) {
 			return
 		}
 		if len(feas) == 1 && !unknown {
-			i := feas[0]
-			fr.apply[i](st)
-			if strings.HasPrefix(fr.why, "concretize") || strings.HasPrefix(fr.why, "pick") {
-				// value now fixed; nothing to assert (implied by pc), continue on the same state
-			}
+			fr.apply[feas[0]](st)
 			continue
 		}
 		in.nForks++
-		for _, i := range feas {
-			c := fr.conds[i]
-			child := st.clone()
-			child.pc = append(child.pc, c)
-			child.nforks++
-			fr.apply[i](child)
-			in.sol.Push()
-			if !c.IsTrue() {
-				in.sol.Assert(c)
-			}
-			in.Explore(child)
-			in.sol.Pop()
+		if in.forkSites != nil {
+			f := st.top()
+			in.forkSites[fmt.Sprintf("%s b%d (%s) k=%d", f.fn.String(), f.block.Index, fr.why, len(feas))]++
 		}
+		// candidate frame for summarisation: the outermost one pushed since the last fork
+		k := -1
+		if !in.opts["nomerge"] && st.panicking == nil {
+			now := st.effects()
+			for i := stop + 1; i < len(st.stack); i++ {
+				f := st.stack[i]
+				if i >= 1 && !f.dirty && f.fx == now && !st.stack[0].initCall {
+					k = i
+					break
+				}
+			}
+		}
+		forkChildren := func(stopAt int) {
+			for _, i := range feas {
+				c := fr.conds[i]
+				child := st.clone()
+				child.pc = append(child.pc, c)
+				child.nforks++
+				fr.apply[i](child)
+				in.sol.Push()
+				if !c.IsTrue() {
+					in.sol.Assert(c)
+				}
+				in.Explore(child, stopAt)
+				in.sol.Pop()
+			}
+		}
+		if k < 0 {
+			forkChildren(stop)
+			return
+		}
+		tmpl := st.clone()
+		tmpl.stack = tmpl.stack[:k]
+		retTo := st.stack[k].retTo
+		heapBase := st.stack[k].heapBase
+		fx := st.stack[k].fx
+		pcLen := len(st.pc)
+		in.collected = append(in.collected, nil)
+		forkChildren(k)
+		kids := in.collected[len(in.collected)-1]
+		in.collected = in.collected[:len(in.collected)-1]
+		in.continueMerged(tmpl, kids, retTo, heapBase, fx, pcLen, k, stop)
 		return
 	}
 }
 
-func (in *Interp) runUntilFork(st *State) (fr *forkReq, end *endPath) {
-	for {
-		fr, end, cont := in.runSome(st)
-		if cont {
-			continue
+type mergeGroup struct {
+	key     string
+	members []*State
+	vals    []Value
+	conds   []*Term
+}
+
+func (in *Interp) continueMerged(tmpl *State, kids []*State, retTo ssa.Value, heapBase int, fx fxCount, pcLen, k, stop int) {
+	tf := in.tf
+	var groups []*mergeGroup
+	byKey := map[string]*mergeGroup{}
+	for idx, ch := range kids {
+		cond := tf.True()
+		for _, c := range ch.pc[pcLen:] {
+			cond = tf.LAnd(cond, c)
 		}
-		return fr, end
+		var rv Value
+		key := ""
+		pure := !ch.retDirty && ch.effects() == fx && len(ch.stack) == k && ch.panicking == nil
+		if pure && retTo != nil {
+			caller := ch.stack[k-1]
+			rv = caller.regs[in.regs(caller.fn)[retTo]]
+			var ok bool
+			key, ok = in.shapeKey(rv, heapBase)
+			if !ok {
+				pure = false
+			}
+		}
+		if !pure {
+			key = fmt.Sprintf("#single%d", idx)
+		}
+		g := byKey[key]
+		if g == nil {
+			g = &mergeGroup{key: key}
+			byKey[key] = g
+			groups = append(groups, g)
+		}
+		g.members = append(g.members, ch)
+		g.vals = append(g.vals, rv)
+		g.conds = append(g.conds, cond)
+	}
+	for _, g := range groups {
+		in.sol.Push()
+		var ns *State
+		if len(g.members) == 1 {
+			ns = g.members[0]
+			for _, c := range ns.pc[pcLen:] {
+				if !c.IsTrue() {
+					in.sol.Assert(c)
+				}
+			}
+		} else {
+			in.nMerged += len(g.members) - 1
+			ns = tmpl.clone()
+			disj := tf.False()
+			for _, c := range g.conds {
+				disj = tf.LOr(disj, c)
+			}
+			ns.pc = append(ns.pc, disj)
+			ns.nforks++
+			in.sol.Assert(disj)
+			if retTo != nil {
+				mv := in.mergeVals(g.vals, g.conds)
+				caller := ns.stack[k-1]
+				in.setReg(caller, retTo, mv)
+			}
+		}
+		in.Explore(ns, stop)
+		in.sol.Pop()
 	}
 }
 
-func (in *Interp) runSome(st *State) (fr *forkReq, end *endPath, cont bool) {
+// shapeKey describes the structure of a value with scalars abstracted to
+// their width; ok is false when the value refers to memory allocated inside
+// the callee (such values cannot be merged across sub-paths).
+func (in *Interp) shapeKey(v Value, heapBase int) (string, bool) {
+	switch x := v.(type) {
+	case nil:
+		return "nil", true
+	case *Term:
+		return fmt.Sprintf("T%d", x.W), true
+	case Ptr:
+		if x.Obj >= heapBase || x.Sym != nil {
+			return "", false
+		}
+		return "P" + pathKey(x.Obj, x.Path), true
+	case Slice:
+		if x.Obj >= heapBase {
+			return "", false
+		}
+		return fmt.Sprintf("S%s,%d,%d,%d,%v,%v", pathKey(x.Obj, x.Path), x.Off, x.Len, x.Cap, x.Nil, x.Str), true
+	case MapRef:
+		if x.Obj >= heapBase {
+			return "", false
+		}
+		return fmt.Sprintf("M%d,%v", x.Obj, x.Nil), true
+	case Tuple:
+		return in.shapeKeys("U", x.E, heapBase)
+	case Struct:
+		return in.shapeKeys("R", x.F, heapBase)
+	case Array:
+		return in.shapeKeys("A", x.E, heapBase)
+	case Iface:
+		if x.T == nil {
+			return "I-nil", true
+		}
+		k, ok := in.shapeKey(x.V, heapBase)
+		return "I(" + x.T.String() + ")" + k, ok
+	case Closure:
+		if x.Nil {
+			return "F-nil", true
+		}
+		if len(x.Env) == 0 {
+			return "F" + x.Fn.String(), true
+		}
+	}
+	return "", false
+}
+
+func (in *Interp) shapeKeys(tag string, vs []Value, heapBase int) (string, bool) {
+	var sb strings.Builder
+	sb.WriteString(tag + "[")
+	for _, e := range vs {
+		k, ok := in.shapeKey(e, heapBase)
+		if !ok {
+			return "", false
+		}
+		sb.WriteString(k + ";")
+	}
+	sb.WriteString("]")
+	return sb.String(), true
+}
+
+// mergeVals builds ite(c0, v0, ite(c1, v1, ... v_last)) for values of one shape.
+func (in *Interp) mergeVals(vals []Value, conds []*Term) Value {
+	switch x := vals[0].(type) {
+	case *Term:
+		r := vals[len(vals)-1].(*Term)
+		for i := len(vals) - 2; i >= 0; i-- {
+			r = in.tf.Ite(conds[i], vals[i].(*Term), r)
+		}
+		return r
+	case Tuple:
+		e := make([]Value, len(x.E))
+		for j := range e {
+			col := make([]Value, len(vals))
+			for i := range vals {
+				col[i] = vals[i].(Tuple).E[j]
+			}
+			e[j] = in.mergeVals(col, conds)
+		}
+		return Tuple{E: e}
+	case Struct:
+		e := make([]Value, len(x.F))
+		for j := range e {
+			col := make([]Value, len(vals))
+			for i := range vals {
+				col[i] = vals[i].(Struct).F[j]
+			}
+			e[j] = in.mergeVals(col, conds)
+		}
+		return Struct{F: e}
+	case Array:
+		e := make([]Value, len(x.E))
+		for j := range e {
+			col := make([]Value, len(vals))
+			for i := range vals {
+				col[i] = vals[i].(Array).E[j]
+			}
+			e[j] = in.mergeVals(col, conds)
+		}
+		return Array{E: e}
+	case Iface:
+		if x.T == nil {
+			return x
+		}
+		col := make([]Value, len(vals))
+		for i := range vals {
+			col[i] = vals[i].(Iface).V
+		}
+		return Iface{T: x.T, V: in.mergeVals(col, conds)}
+	}
+	return vals[0] // identical by shape key (pointers, slices, maps, closures, nil)
+}
+
+func (in *Interp) runUntilFork(st *State, stop int) (fr *forkReq, end *endPath, stopped bool) {
+	for {
+		fr, end, cont, stopped := in.runSome(st, stop)
+		if cont {
+			continue
+		}
+		return fr, end, stopped
+	}
+}
+
+func (in *Interp) runSome(st *State, stop int) (fr *forkReq, end *endPath, cont bool, stopped bool) {
 	defer func() {
 		if r := recover(); r != nil {
 			switch x := r.(type) {
@@ -377,6 +611,14 @@ func (in *Interp) runSome(st *State) (fr *forkReq, end *endPath, cont bool) {
 			}
 		}
 	}()
+	if stop > 0 {
+		for {
+			if len(st.stack) <= stop {
+				return nil, nil, false, true
+			}
+			in.step(st)
+		}
+	}
 	for {
 		in.step(st)
 	}
@@ -654,7 +896,7 @@ func (in *Interp) pushFrame(st *State, fn *ssa.Function, args []Value, env []Val
 	}
 	in.funcs[fn] = true
 	m := in.regs(fn)
-	f := &Frame{fn: fn, regs: make([]Value, len(m)), block: fn.Blocks[0]}
+	f := &Frame{fn: fn, regs: make([]Value, len(m)), block: fn.Blocks[0], epoch: st.nforks, heapBase: len(st.heap), fx: st.effects(), pcBase: len(st.pc)}
 	if len(args) != len(fn.Params) {
 		panic(endPath{kind: "unsupported", msg: fmt.Sprintf("arity mismatch calling %s: %d args for %d params", fn, len(args), len(fn.Params))})
 	}
@@ -704,6 +946,7 @@ func (in *Interp) unwindStep(st *State) {
 		return
 	}
 	st.stack = st.stack[:len(st.stack)-1]
+	st.retDirty = true
 	pi.deferBase = len(st.stack)
 	if len(st.stack) == 0 || (len(st.stack) > 0 && f.initCall) {
 		panic(endPath{kind: "panic", msg: pi.msg + " [at: " + pi.stack + "]", pos: pi.pos})
@@ -895,7 +1138,7 @@ func (in *Interp) step(st *State) {
 			nv = append(nv, val)
 		}
 		in.logAccess(st, mr.Obj, nil, true, x.Pos())
-		st.heap[mr.Obj] = &Object{Cell: MapData{Keys: nk, Vals: nv}, Tag: st.heap[mr.Obj].Tag}
+		st.setCell(mr.Obj, MapData{Keys: nk, Vals: nv})
 	case *ssa.TypeAssert:
 		in.setReg(f, x, in.typeAssert(st, x, in.eval(st, f, x.X)))
 	case *ssa.Store:
@@ -1028,6 +1271,7 @@ func (in *Interp) jump(st *State, f *Frame, to *ssa.BasicBlock, symbolic bool) {
 func (in *Interp) ret(st *State, res Value) {
 	f := st.top()
 	st.stack = st.stack[:len(st.stack)-1]
+	st.retDirty = f.dirty
 	if len(st.stack) == 0 {
 		if f.initCall {
 			return
